@@ -501,13 +501,16 @@ func vfRunWrapDiff(t *testing.T, spec *vfSpec, res *vfRes) {
 			// goroutine scheduling inside the bubble is not fully deterministic (e.g. whether a reader has
 			// consumed a message before the SACK is built). A dependence on the initial TSN is: repeat the
 			// shifted run and accept the divergence only if it reproduces at the same line with the same content.
-			tr2, _, ok2 := vfRunWrapVariant(t, spec, res, v, v.name+"-again")
-			if !ok2 || vfFirstDiff(t1, tr2) != d || vfIdx(tr2, d) != vfIdx(tr, d) {
+			// Two retransmission timers of one endpoint expiring at the same virtual instant run in an order the
+			// scheduler picks, which can change the following packets in either run. So the divergence counts only
+			// if it is unanimous: six more reference runs all agree with the reference up to and including line d,
+			// and seven more shifted runs all diverge at line d with the same content.
+			if !vfUnanimous(t, spec, res, ref, v, t1, tr, d) {
 				res.count("c16_noisy_divergences", 1)
 
 				continue
 			}
-			res.violate("C16", "assoc/diverge/tsn", "same scenario, same network behaviour: initial TSNs (%d,%d) diverge (reproducibly, twice) from the reference (100000,200000) at normalised trace line %d of %d:\n  reference: %s\n  shifted:   %s", v.tsnA, v.tsnB, d, len(t1), vfIdx(t1, d), vfIdx(tr, d))
+			res.violate("C16", "assoc/diverge/tsn", "same scenario, same network behaviour: initial TSNs (%d,%d) diverge (reproducibly, 8 of 8 runs each) from the reference (100000,200000) at normalised trace line %d of %d:\n  reference: %s\n  shifted:   %s", v.tsnA, v.tsnB, d, len(t1), vfIdx(t1, d), vfIdx(tr, d))
 			for j := d - 3; j < d+3; j++ {
 				if j >= 0 {
 					res.witness("ref[%d] %s", j, vfIdx(t1, j))
@@ -528,10 +531,8 @@ func vfRunWrapDiff(t *testing.T, spec *vfSpec, res *vfRes) {
 	if oka && okb {
 		res.count("c16_seq_pairs", 1)
 		if d := vfFirstDiff(ta, tb); d >= 0 {
-			tb2, _, ok2 := vfRunWrapVariant(t, spec, res, vs, "seqwrap-again")
-			ta2, _, ok3 := vfRunWrapVariant(t, spec, res, v0, "seq0-again")
-			if ok2 && ok3 && vfFirstDiff(ta, tb2) == d && vfIdx(tb2, d) == vfIdx(tb, d) && vfFirstDiff(ta, ta2) < 0 {
-				res.violate("C16", "assoc/diverge/seq", "same scenario with SSN/MID/RSN starting at (%d,%d,%d) diverges (reproducibly, twice) from the run starting at (100,1000,5000) at normalised trace line %d:\n  reference: %s\n  wrapped:   %s", vs.ssn, vs.mid, vs.rsn, d, vfIdx(ta, d), vfIdx(tb, d))
+			if vfUnanimous(t, spec, res, v0, vs, ta, tb, d) {
+				res.violate("C16", "assoc/diverge/seq", "same scenario with SSN/MID/RSN starting at (%d,%d,%d) diverges (reproducibly, 8 of 8 runs each) from the run starting at (100,1000,5000) at normalised trace line %d:\n  reference: %s\n  wrapped:   %s", vs.ssn, vs.mid, vs.rsn, d, vfIdx(ta, d), vfIdx(tb, d))
 			} else {
 				res.count("c16_noisy_divergences", 1)
 			}
@@ -541,6 +542,26 @@ func vfRunWrapDiff(t *testing.T, spec *vfSpec, res *vfRes) {
 	}
 	res.res.Nontrivial = res.get("c16_wrap_crossed") > 0
 	res.res.Sample = map[string]any{"kind": "wrap-differential", "scenario": spec.Kind, "trace_lines": len(t1), "shifted_runs": res.get("c16_shifted_runs"), "crossed_wrap": res.get("c16_wrap_crossed"), "streams": spec.Streams, "link": spec.Link}
+}
+
+// vfUnanimous re-runs both variants: true iff every further run of the base variant equals base through line d and
+// every further run of the other variant first differs from base at line d with the content seen in other.
+func vfUnanimous(t *testing.T, spec *vfSpec, res *vfRes, vBase, vOther vfWrapVariant, base, other []string, d int) bool {
+	for k := 0; k < 7; k++ {
+		if k < 6 {
+			tb, _, ok := vfRunWrapVariant(t, spec, res, vBase, fmt.Sprintf("%s-confirm%d", vBase.name, k))
+			if dd := vfFirstDiff(base, tb); !ok || (dd >= 0 && dd <= d) {
+				return false
+			}
+		}
+		to, _, ok := vfRunWrapVariant(t, spec, res, vOther, fmt.Sprintf("%s-confirm%d", vOther.name, k))
+		if !ok || vfFirstDiff(base, to) != d || vfIdx(to, d) != vfIdx(other, d) {
+			return false
+		}
+	}
+	res.count("c16_unanimous_divergences", 1)
+
+	return true
 }
 
 func vfFirstDiff(a, b []string) int {
